@@ -10,7 +10,9 @@ package store
 
 import (
 	"context"
+	crand "crypto/rand"
 	"database/sql"
+	"encoding/binary"
 	"encoding/json"
 	"fmt"
 	"io"
@@ -20,6 +22,7 @@ import (
 	"path/filepath"
 	"sort"
 	"strings"
+	"sync/atomic"
 	"time"
 
 	"github.com/rqlite/rqlite/v10/command/proto"
@@ -29,33 +32,115 @@ import (
 
 // ---------------------------------------------------------------- network
 
-type g8aLayer struct{ ln net.Listener }
+// Every connection between the group's nodes starts with an 8-byte token that
+// is unique per process and per case. Raft itself has no cluster identity: on
+// a machine where many harness processes recycle loopback ports, a leader of
+// some other test that still dials a released port would otherwise be able to
+// replicate its log into one of our nodes (and ours into theirs).
+var (
+	g8aProcToken = func() [6]byte {
+		var b [6]byte
+		crand.Read(b[:])
+		return b
+	}()
+	g8aCaseSeq atomic.Uint32
+)
+
+// g8aNextCase starts a new token epoch; call it at the start of every case.
+func g8aNextCase() { g8aCaseSeq.Add(1) }
+
+// G8aNextCase is the exported alias.
+var G8aNextCase = g8aNextCase
+
+func g8aToken() [8]byte {
+	var t [8]byte
+	copy(t[:6], g8aProcToken[:])
+	binary.BigEndian.PutUint16(t[6:], uint16(g8aCaseSeq.Load()))
+	return t
+}
+
+type g8aLayer struct {
+	ln    net.Listener
+	token [8]byte
+}
 
 func g8aListen(addr string) (*g8aLayer, error) {
 	ln, err := net.Listen("tcp", addr)
 	if err != nil {
 		return nil, err
 	}
-	return &g8aLayer{ln}, nil
+	return &g8aLayer{ln: ln, token: g8aToken()}, nil
 }
 
 func (l *g8aLayer) Dial(addr string, timeout time.Duration) (net.Conn, error) {
-	return net.DialTimeout("tcp", addr, timeout)
+	c, err := net.DialTimeout("tcp", addr, timeout)
+	if err != nil {
+		return nil, err
+	}
+	c.SetWriteDeadline(time.Now().Add(timeout))
+	if _, err := c.Write(l.token[:]); err != nil {
+		c.Close()
+		return nil, err
+	}
+	c.SetWriteDeadline(time.Time{})
+	return c, nil
 }
-func (l *g8aLayer) Accept() (net.Conn, error) { return l.ln.Accept() }
-func (l *g8aLayer) Close() error              { return l.ln.Close() }
-func (l *g8aLayer) Addr() net.Addr            { return l.ln.Addr() }
 
-// g8aUnusedAddr returns a loopback address on which nothing listens (a port
-// the kernel just handed out and that was released again).
-func g8aUnusedAddr() string {
+// g8aConn verifies the token lazily on the first Read, so that a silent
+// foreign connection cannot stall the accept loop.
+type g8aConn struct {
+	net.Conn
+	token   [8]byte
+	checked bool
+}
+
+func (c *g8aConn) Read(p []byte) (int, error) {
+	if !c.checked {
+		var got [8]byte
+		if _, err := io.ReadFull(c.Conn, got[:]); err != nil {
+			return 0, err
+		}
+		if got != c.token {
+			c.Conn.Close()
+			return 0, fmt.Errorf("connection from a foreign test node rejected")
+		}
+		c.checked = true
+	}
+	return c.Conn.Read(p)
+}
+
+func (l *g8aLayer) Accept() (net.Conn, error) {
+	c, err := l.ln.Accept()
+	if err != nil {
+		return nil, err
+	}
+	return &g8aConn{Conn: c, token: l.token}, nil
+}
+func (l *g8aLayer) Close() error   { return l.ln.Close() }
+func (l *g8aLayer) Addr() net.Addr { return l.ln.Addr() }
+
+// g8aReserveAddr returns a loopback address at which no raft node will ever
+// answer, and a function that releases it. The port stays bound (connections
+// are accepted and closed at once) until release is called, so that the kernel
+// cannot hand it to another test node meanwhile: a leader that keeps dialling a
+// recycled port would otherwise replicate its log into a foreign node (raft has
+// no cluster identity) - seen once as rows of another history in a rebuilt
+// database.
+func g8aReserveAddr() (addr string, release func()) {
 	ln, err := net.Listen("tcp", "127.0.0.1:0")
 	if err != nil {
-		return "127.0.0.1:1"
+		return "127.0.0.1:1", func() {}
 	}
-	a := ln.Addr().String()
-	ln.Close()
-	return a
+	go func() {
+		for {
+			c, err := ln.Accept()
+			if err != nil {
+				return
+			}
+			c.Close()
+		}
+	}()
+	return ln.Addr().String(), func() { ln.Close() }
 }
 
 // ------------------------------------------------------------------ store
